@@ -121,7 +121,8 @@ MonC09cut(t, full, c) ==
     ELSE IF ~IsPrefixIds(c.items, full.items) THEN "C09:not-a-prefix"
     ELSE IF \E i \in 1..Len(c.items) : c.endpos[i] > c.cut THEN "C09:item-beyond-cut"
     ELSE IF Len(t.recipe) > 0 /\
-            Cardinality({i \in 1..Len(t.recipe) : t.recipe[i].p # "NOISE" /\ t.recipe[i].ok = 1 /\ t.recipe[i].b <= c.cut})
+            Cardinality({i \in 1..Len(t.recipe) : t.recipe[i].p # "NOISE" /\ t.recipe[i].ok = 1 /\ t.recipe[i].b <= c.cut
+                                                   /\ InMask(c.filter, t.recipe[i].p)})
                > Len(c.items) THEN "C09:complete-frame-before-cut-not-delivered"
     ELSE "ok"
 
